@@ -5,6 +5,7 @@ import (
 	"fmt"
 	"math/big"
 	"sort"
+	"strings"
 
 	"github.com/nspcc-dev/neo-go/pkg/compiler"
 	"github.com/nspcc-dev/neo-go/pkg/util"
@@ -208,6 +209,15 @@ func NewBalDriver(mode string) *BalDriver {
 			balOp{kind: "mint", to: "A", amt: bigS("5"), signer: "M"},
 			balOp{kind: "lock", from: "A", to: "Lnext", amt: bigS("3"), until: 1, signer: "M"},
 			balOp{kind: "tick", signer: "M", de: 1}, balOp{kind: "balEpoch", signer: "M"},
+			// one Alphabet member alone is not the Alphabet either
+			balOp{kind: "transferX", from: "A", to: "B", amt: bigS("3"), signer: "m0"},
+			balOp{kind: "burn", from: "A", amt: bigS("3"), signer: "m0"},
+			balOp{kind: "lock", from: "A", to: "Lnext", amt: bigS("3"), until: 1, signer: "m0"},
+			balOp{kind: "tick", signer: "m0", de: 1}, balOp{kind: "balEpoch", signer: "m0"},
+			balOp{kind: "transfer", from: "A", to: "B", amt: bigS("3"), signer: "M"},
+			// a lock account is nobody's to spend: not its parent's, not a stranger's
+			balOp{kind: "transfer", from: "L1", to: "A", amt: bigS("3"), signer: "to"},
+			balOp{kind: "transfer", from: "L1", to: "B", amt: bigS("3"), signer: "S"},
 		)
 	case "C09":
 		add(balOp{kind: "mint", to: "A", amt: bigS("10"), signer: "C"})
@@ -376,6 +386,8 @@ func (d *BalDriver) Step(x *Exec, n *Node, i int) StepResult {
 		alpha = true
 	case "M":
 		signers = append(signers, w.Comm)
+	case "m0":
+		signers = append(signers, w.Members[0].Hash)
 	case "nobody":
 	}
 	hasWitness := func(a []byte) bool {
@@ -565,7 +577,10 @@ func (d *BalDriver) Step(x *Exec, n *Node, i int) StepResult {
 			if ab.Cmp(b) < 0 {
 				ab20, _ := hex.DecodeString(a)
 				own := o.kind == "probeXfer" && a == Hx(d.addrs["Kc"])
-				if !(alpha || hasWitness(ab20) || own) {
+				// the Alphabet's signature authorises debits through its own methods only (transferX, lock, burn, the
+				// epoch unlock), not through the public transfer
+				alphaPath := alpha && (o.kind == "transferX" || o.kind == "lock" || o.kind == "burn" || o.kind == "tick" || strings.HasPrefix(o.kind, "balEpoch"))
+				if !(alphaPath || hasWitness(ab20) || own) {
 					where["account"] = d.symOf(a)
 					r := viol("unauthorised-debit", fmt.Sprintf("%s went %s -> %s in a transaction signed by %v", d.symOf(a), b, ab, o.signer))
 					return &r
